@@ -123,6 +123,10 @@ class C02(Check):
                 {**base, 'text': t([{'jsonrpc': '2.0', 'method': 'echo', 'params': [1], 'id': 0}, {'jsonrpc': '2.0', 'method': 'echo', 'params': [2], 'id': ''}])},
                 {**base, 'max_batch_size': 1, 'text': t([{'jsonrpc': '2.0', 'method': 'echo', 'params': [1], 'id': 1}, {'jsonrpc': '2.0', 'method': 'noargs'}])},
                 {**base, 'text': t({'jsonrpc': '2.0', 'method': 'echo', 'params': [1, 2, 3]})},
+                # near-miss spellings of the protocol version: each makes its element an invalid request (nothing of the batch runs)
+                *[{**base, 'text': t([{'jsonrpc': '2.0', 'method': 'echo', 'params': [1], 'id': 1}, {'jsonrpc': v, 'method': 'echo', 'params': [2], 'id': 2}])}
+                  for v in ('2', '2.', '.0', '0', '.', '', '2.00')],
+                *[{**base, 'text': t({'jsonrpc': v, 'method': 'noargs', 'id': 7})} for v in ('2', '', '.0')],
             ]
         return out
 
